@@ -3,9 +3,10 @@
 
   Model: `getKey`, `keyName` (events.get_key / _key_name), `keymapGet` (configfile_keynames.KeyMap.__getitem__)
   in Model/Keys.lean; tables and SPECIALS regenerated from /repo (Generated/Keys.lean).
-  The mode theorems hold for ARBITRARY tables meeting the decidable side conditions `T.WF` (Proofs/Keys.lean:
-  curses keys ⊆ curtsies keys, multi-byte entries ASCII, ...), which `genTables_wf` re-proves over the
-  regenerated tables on every build.
+  The theorems hold for ARBITRARY tables meeting the decidable side conditions `T.Core` (Proofs/KeysCore.lean:
+  curses keys ⊆ curtsies keys, prefix set = recomputation, multi-byte entries ESC-initiated, sizes, no duplicate
+  keys), which `genTables_core` (Proofs/KeysGenCore.lean) re-proves over the regenerated tables on every build.
+  They do NOT need "multi-byte entries are ASCII" (C03's premise): this file does not import Properties/C03.lean.
 
   Domain of C20_config (the property's "every key a configuration file can name ... all letters, all printable
   characters, all function keys, all specials"): C-<letter a..z, A..Z>, M-<printable ASCII character 0x20..0x7e>,
@@ -15,7 +16,7 @@
   is `C20_config_full_statement`, refuted by `C20_D42_witness`. The property is silent on malformed names;
   `keymapGet` models them (KeyError etc.) and the harness ties them.
 -/
-import Curtsies.Properties.C03
+import Curtsies.Proofs.KeysGenCore
 namespace Curtsies
 open Spec.Utf8
 
@@ -28,7 +29,7 @@ def cutOf : Except PyErr (Option KeyVal) → Cut
   | .ok (some _) => .key
   | .error e => .fail e
 
-theorem getKey_cut {T : KeyTables} (hT : T.WF) (seq : List Nat) (enc : Enc) (mode : KeyMode) (full : Bool) :
+theorem getKey_cut {T : KeyTables} (hT : T.Core) (seq : List Nat) (enc : Enc) (mode : KeyMode) (full : Bool) :
     cutOf (getKey T seq enc mode full) =
       if seq.length > T.maxSize then .fail .valueError
       else if full && keyKnown T seq enc then .key
@@ -41,24 +42,24 @@ theorem getKey_cut {T : KeyTables} (hT : T.WF) (seq : List Nat) (enc : Enc) (mod
   · split
     · rename_i h
       simp only [Bool.and_eq_true] at h
-      obtain ⟨k, hk⟩ := keyName_ok_of_known hT seq enc mode h.2
+      obtain ⟨k, hk⟩ := keyName_ok_of_known_core hT seq enc mode h.2
       simp [hk, Except.map, cutOf]
     · split
       · rfl
       · split
         · rename_i h
-          obtain ⟨k, hk⟩ := keyName_ok_of_known hT seq enc mode h
+          obtain ⟨k, hk⟩ := keyName_ok_of_known_core hT seq enc mode h
           simp [hk, Except.map, cutOf]
         · rfl
 
 /-- The three naming modes differ only in names: for the same bytes, encoding and `full` they decide alike
     (wait / key / the same exception kind) - for all inputs. Naming happens after the decision. -/
-theorem C20_same_cuts (T : KeyTables) (hT : T.WF) (seq : List Nat) (enc : Enc) (m₁ m₂ : KeyMode) (full : Bool) :
+theorem C20_same_cuts (T : KeyTables) (hT : T.Core) (seq : List Nat) (enc : Enc) (m₁ m₂ : KeyMode) (full : Bool) :
     cutOf (getKey T seq enc m₁ full) = cutOf (getKey T seq enc m₂ full) := by
   rw [getKey_cut hT, getKey_cut hT]
 
 /-- ... hence `find_key` consumes the same bytes in every mode (one call; whole runs: `C20_same_cuts_segment`). -/
-theorem C20_same_cuts_findKey (T : KeyTables) (hT : T.WF) (enc : Enc) (m₁ m₂ : KeyMode) (buf : List Nat) :
+theorem C20_same_cuts_findKey (T : KeyTables) (hT : T.Core) (enc : Enc) (m₁ m₂ : KeyMode) (buf : List Nat) :
     (findKey T enc m₁ buf).map (Option.map (·.2)) = (findKey T enc m₂ buf).map (Option.map (·.2)) := by
   suffices ∀ un cur, (findKeyLoop T enc m₁ cur un).map (Option.map (·.2)) =
       (findKeyLoop T enc m₂ cur un).map (Option.map (·.2)) from this buf []
@@ -85,7 +86,7 @@ theorem C20_same_cuts_findKey (T : KeyTables) (hT : T.WF) (enc : Enc) (m₁ m₂
 
 /-- ... and over a whole run: `segment` cuts the stream into the same pieces in every mode (same consumed byte
     strings in the same order, or the same exception). -/
-theorem C20_same_cuts_segment (T : KeyTables) (hT : T.WF) (enc : Enc) (m₁ m₂ : KeyMode) (n : Nat) (buf : List Nat) :
+theorem C20_same_cuts_segment (T : KeyTables) (hT : T.Core) (enc : Enc) (m₁ m₂ : KeyMode) (n : Nat) (buf : List Nat) :
     (segment T enc m₁ n buf).map (List.map (·.2)) = (segment T enc m₂ n buf).map (List.map (·.2)) := by
   induction n generalizing buf with
   | zero => cases buf <;> simp [segment, Except.map]
@@ -175,24 +176,19 @@ def producible (T : KeyTables) (n : List Nat) : Prop :=
   ∃ u enc rest, T.isKey u = true ∧ findKey T enc .curtsies (u ++ rest) = .ok (some (.text n, u, rest))
 
 /-- every curtsies table name is produced by `get_key` on its sequence when the buffer is exhausted ... -/
-theorem C20_table_names_producible (T : KeyTables) (hT : T.WF) (u : List Nat) (name : List Nat)
+theorem C20_table_names_producible (T : KeyTables) (hT : T.Core) (u : List Nat) (name : List Nat)
     (h : T.curtsies.lookup u = some name) (enc : Enc) :
     getKey T u enc .curtsies true = .ok (some (.text name)) := by
   have hu : T.isKey u = true := by simp [KeyTables.isKey, h]
-  obtain ⟨_, _, hl, _⟩ := isKey_entry hT hu
+  have hl : u.length ≤ T.maxSize := hT.max_size (u, name) (by simp [KeyTables.all, lookup_mem h])
   rw [getKey_known hl enc .curtsies true (keyKnown_of_isKey hu enc) (Or.inl rfl)]
   simp [keyName, h, Except.map]
 
 /-- ... and by `find_key` on a buffer holding exactly that sequence, under every encoding. -/
-theorem C20_table_names_producible_findKey (T : KeyTables) (hT : T.WF) (u : List Nat) (name : List Nat)
+theorem C20_table_names_producible_findKey (T : KeyTables) (hT : T.Core) (u : List Nat) (name : List Nat)
     (h : T.curtsies.lookup u = some name) (enc : Enc) :
-    findKey T enc .curtsies (u ++ []) = .ok (some (.text name, u, [])) := by
-  have hu : T.isKey u = true := by simp [KeyTables.isKey, h]
-  obtain ⟨k, hk, n, hn, rfl⟩ := (C03_table T hT u hu enc .curtsies [] (by rintro ⟨_, h, _⟩; exact h rfl)
-    (by rintro ⟨_, h, _⟩; exact h rfl)).2.1
-    (Or.inl rfl)
-  rw [h] at hn; cases hn
-  exact hk
+    findKey T enc .curtsies (u ++ []) = .ok (some (.text name, u, [])) :=
+  findKey_table_whole_core hT u name h enc
 
 /-- the configuration names the property quantifies over ("all letters, all printable characters, all function
     keys, all specials"): SPECIALS, C-a..C-z, C-A..C-Z, M-<0x20..0x7e>, M-<a few non-ASCII printable characters:
@@ -242,9 +238,9 @@ theorem C20_config_partial : ∀ k ∈ validConfigNames Generated.configSpecials
     refine ⟨names, hn, h.1, ?_⟩
     intro n hn'
     obtain ⟨e, he, h1⟩ := h.2 n hn'
-    have h2 : genTables.curtsies.lookup e.1 = some e.2 := genTables_wf.curtsies_lookup e he
+    have h2 : genTables.curtsies.lookup e.1 = some e.2 := genTables_core.curtsies_lookup e he
     refine ⟨e.1, .utf8, [], by simp [KeyTables.isKey, h2], ?_⟩
-    rw [C20_table_names_producible_findKey genTables genTables_wf e.1 e.2 h2 .utf8, h1]
+    rw [C20_table_names_producible_findKey genTables genTables_core e.1 e.2 h2 .utf8, h1]
   · cases h
 
 theorem findKeyLoop_result_getKey {T : KeyTables} (enc : Enc) (mode : KeyMode) (un : List Nat) :
@@ -280,15 +276,14 @@ theorem getKey_some_keyName {T : KeyTables} {s : List Nat} {enc : Enc} {mode : K
 
 /-- whatever name the decoder produces for a table sequence (any encoding, any continuation) is a name in the
     curtsies table -/
-theorem producible_in_table (T : KeyTables) (hT : T.WF) (n : List Nat) (h : producible T n) :
+theorem producible_in_table (T : KeyTables) (hT : T.Core) (n : List Nat) (h : producible T n) :
     ∃ e ∈ T.curtsies, e.2 = n := by
   obtain ⟨u, enc, rest, hu, hf⟩ := h
   obtain ⟨full, hg⟩ := findKeyLoop_result_getKey enc .curtsies (u ++ rest) [] _ _ _ hf
   have hk := getKey_some_keyName hg
-  obtain ⟨k', hk', n', hn', rfl⟩ := keyName_isKey hT hu enc .curtsies
-  rw [hk'] at hk
-  have e : n' = n := by simpa using hk
-  subst e
+  obtain ⟨n', hn'⟩ := curtsies_name_of_isKey hT hu
+  simp [keyName, hn'] at hk
+  subst hk
   exact ⟨(u, n'), lookup_mem hn', rfl⟩
 
 set_option maxRecDepth 100000 in
@@ -308,9 +303,9 @@ theorem C20_D42_witness :
   have t1 : ∀ e ∈ genTables.curtsies, e.2 ≠ [60, 67, 116, 114, 108, 45, 65, 62] := by decide +kernel
   have t2 : ∀ e ∈ genTables.curtsies, e.2 ≠ [60, 69, 115, 99, 43, 0xE9, 62] := by decide +kernel
   have p1 : ¬ producible genTables [60, 67, 116, 114, 108, 45, 65, 62] := by
-    intro h; obtain ⟨e, he, h2⟩ := producible_in_table genTables genTables_wf _ h; exact t1 e he h2
+    intro h; obtain ⟨e, he, h2⟩ := producible_in_table genTables genTables_core _ h; exact t1 e he h2
   have p2 : ¬ producible genTables [60, 69, 115, 99, 43, 0xE9, 62] := by
-    intro h; obtain ⟨e, he, h2⟩ := producible_in_table genTables genTables_wf _ h; exact t2 e he h2
+    intro h; obtain ⟨e, he, h2⟩ := producible_in_table genTables genTables_core _ h; exact t2 e he h2
   have m1 : [67, 45, 65] ∈ validConfigNames Generated.configSpecialsCps := by decide +kernel
   have k1 : keymapGet Generated.configSpecialsCps [67, 45, 65] = .ok [[60, 67, 116, 114, 108, 45, 65, 62]] := by
     decide +kernel
